@@ -309,7 +309,18 @@ func checkCase(c *Case, count bool) (err error) {
 		}
 	}
 	special := func(kind string) fox.HandlerFunc {
-		return func(ctx fox.Context) { delegate(ctx, kind); seen[kind] = clientIP(ctx); ctx.Writer().WriteHeader(299) }
+		return func(ctx fox.Context) {
+			if ctx.Request().Header.Get("X-C19-Decline") == "panic" {
+				panic("c19: the no-route handler fails")
+			}
+			if ctx.Request().Header.Get("X-C19-Decline") != "" {
+				ctx.Writer().WriteHeader(299)
+				return
+			}
+			delegate(ctx, kind)
+			seen[kind] = clientIP(ctx)
+			ctx.Writer().WriteHeader(299)
+		}
 	}
 	sharedOpts = nil
 	if c.Shared {
@@ -419,6 +430,35 @@ func checkCase(c *Case, count bool) (err error) {
 		}
 	} else if count {
 		stats.Excluded("nil router-wide resolver after a real one: resolver aspects not judged")
+	}
+	// a route that declines its requests: its handler hands over to the router's no-route handler, which answers or fails
+	// (panics); a middleware of the route contains the failure and then looks at the context again - it is still the context
+	// of a request matched to this route, with this route's settings
+	var declineErr error
+	guard := func(next fox.HandlerFunc) fox.HandlerFunc {
+		return func(ctx fox.Context) {
+			func() {
+				defer func() { _ = recover() }()
+				next(ctx)
+			}()
+			if ctx.Route() == nil || ctx.Pattern() != "/zz-c19-decline/{x}" || ctx.Param("x") != "v" || clientIP(ctx) != ipOf(8) {
+				declineErr = fmt.Errorf("%sroute /zz-c19-decline/{x} (own resolver #8) whose handler called Router.HandleNoRoute (no-route handler: %s): afterwards, in the route's middleware, Route()==nil is %v, Pattern()=%q, Param(x)=%q, ClientIP=%s; want the route, its pattern, \"v\" and %s",
+					desc, ctx.Request().Header.Get("X-C19-Decline"), ctx.Route() == nil, ctx.Pattern(), ctx.Param("x"), clientIP(ctx), ipOf(8))
+			}
+		}
+	}
+	if _, e := f.Handle("GET", "/zz-c19-decline/{x}", func(ctx fox.Context) { ctx.Fox().HandleNoRoute(ctx) }, fox.WithClientIPResolver(res(8)), fox.WithMiddleware(guard)); e == nil {
+		for _, mode := range []string{"answers", "panic", "answers"} {
+			dreq := httptest.NewRequest("GET", "http://example.com/zz-c19-decline/v", nil)
+			dreq.Header.Set("X-C19-Decline", mode)
+			f.ServeHTTP(httptest.NewRecorder(), dreq)
+			if declineErr != nil {
+				return declineErr
+			}
+		}
+		if count {
+			stats.Class("route-declining-through-HandleNoRoute")
+		}
 	}
 	return nil
 }
